@@ -983,3 +983,159 @@ Proof.
 Qed.
 
 End WriteText.
+
+(* ---- the polls of an accepted PUT / REMOVE plan, any number of them, also after it finished *)
+Section WritePolls.
+Variable fo : fops.
+Variable re : bytes -> bytes -> Value.res bool.
+Hypothesis re_safe : forall p t, safe (re p t).
+
+Notation ev := (PipelineW.ev_expr fo re).
+
+(* an error a poll may return: an evaluation error or a storage error -- not the twin's
+   "would panic" / "ran dry" classes *)
+Definition err_ok (e : option Storage.err) : Prop := e <> Some Storage.EPanic /\ e <> Some Storage.EFuel.
+Definition pres_ok (r : Write.pres) : Prop := err_ok (snd r).
+
+Lemma err_ok_none : err_ok None.
+Proof. split; discriminate. Qed.
+Lemma err_ok_exec : err_ok (Some Storage.EExec).
+Proof. split; discriminate. Qed.
+Lemma err_ok_storage : err_ok (Some Storage.EStorage).
+Proof. split; discriminate. Qed.
+
+Lemma process_kvpairs_ok : forall prs, PipelineW.pairs_stat fo re prs = PipelineW.EsRuns ->
+  match Write.process_kvpairs ev prs with Storage.Err e => e = Storage.EExec | Storage.Ok _ => True end.
+Proof.
+  induction prs as [|[ke ve] prs IH]; cbn [PipelineW.pairs_stat Write.process_kvpairs]; [exact (fun _ => I)|].
+  unfold Write.process_kvpair, PipelineW.ev_expr in *. cbn [fst snd].
+  destruct (eval fo re "" "" ke) as [kx|e| |]; try discriminate; [|reflexivity].
+  destruct (eval fo re (to_string fo kx) "" ve) as [vx|e| |]; try discriminate; [|reflexivity].
+  intros H. specialize (IH H). destruct (Write.process_kvpairs _ prs); [exact I | exact IH].
+Qed.
+
+Lemma process_keys_ok : forall ks, PipelineW.keys_stat fo re ks = PipelineW.EsRuns ->
+  match Write.process_keys ev ks with Storage.Err e => e = Storage.EExec | Storage.Ok _ => True end.
+Proof.
+  induction ks as [|ke ks IH]; cbn [PipelineW.keys_stat Write.process_keys]; [exact (fun _ => I)|].
+  unfold Write.process_key, PipelineW.ev_expr in *.
+  destruct (eval fo re "" "" ke) as [kx|e| |]; try discriminate; [|reflexivity].
+  intros H. specialize (IH H). destruct (Write.process_keys _ ks); [exact I | exact IH].
+Qed.
+
+Lemma put_execute_ok prs s : PipelineW.pairs_stat fo re prs = PipelineW.EsRuns ->
+  err_ok (snd (fst (Write.put_execute ev prs s))).
+Proof.
+  intros H. apply process_kvpairs_ok in H. unfold Write.put_execute.
+  destruct (Write.process_kvpairs ev prs) as [kvps|e]; [|subst e; exact err_ok_exec].
+  destruct kvps as [|kv [|kv2 kvps]]; [exact err_ok_none | |].
+  - unfold Storage.st_put, Storage.call. destruct (Storage.faulted s); [exact err_ok_storage | exact err_ok_none].
+  - unfold Storage.st_batch_put, Storage.call. destruct (Storage.faulted s); [exact err_ok_storage | exact err_ok_none].
+Qed.
+
+Lemma remove_execute_ok ks s : PipelineW.keys_stat fo re ks = PipelineW.EsRuns ->
+  err_ok (snd (fst (Write.remove_execute ev ks s))).
+Proof.
+  intros H. apply process_keys_ok in H. unfold Write.remove_execute.
+  destruct (Write.process_keys ev ks) as [keys|e]; [|subst e; exact err_ok_exec].
+  destruct keys as [|k [|k2 keys]]; [exact err_ok_none | |].
+  - unfold Storage.st_delete, Storage.call. destruct (Storage.faulted s); [exact err_ok_storage | exact err_ok_none].
+  - unfold Storage.st_batch_delete, Storage.call. destruct (Storage.faulted s); [exact err_ok_storage | exact err_ok_none].
+Qed.
+
+Lemma wpoll_ok pl p ex s : PipelineW.plan_stat fo re pl = PipelineW.EsRuns ->
+  pres_ok (fst (fst (Write.wpoll ev pl p ex s))).
+Proof.
+  intros H. unfold pres_ok. destruct pl as [prs|ks], p; cbn [Write.wpoll PipelineW.plan_stat] in *;
+    unfold Write.put_next, Write.put_batch, Write.remove_next, Write.remove_batch;
+    destruct (negb ex); try exact err_ok_none.
+  - pose proof (put_execute_ok prs s H) as G. destruct (Write.put_execute ev prs s) as [[n e] s']. exact G.
+  - pose proof (put_execute_ok prs s H) as G. destruct (Write.put_execute ev prs s) as [[n e] s']. exact G.
+  - pose proof (remove_execute_ok ks s H) as G. destruct (Write.remove_execute ev ks s) as [[n e] s']. exact G.
+  - pose proof (remove_execute_ok ks s H) as G. destruct (Write.remove_execute ev ks s) as [[n e] s']. exact G.
+Qed.
+
+Lemma run_polls_ok pl : PipelineW.plan_stat fo re pl = PipelineW.EsRuns ->
+  forall polls ex s, Forall pres_ok (fst (fst (Write.run_polls ev pl polls ex s))).
+Proof.
+  intros H. induction polls as [|p polls IH]; intros ex s; cbn [Write.run_polls]; [constructor|].
+  pose proof (wpoll_ok pl p ex s H) as Hp.
+  destruct (Write.wpoll ev pl p ex s) as [[r ex'] s']. cbn [fst] in Hp.
+  specialize (IH ex' s'). destruct (Write.run_polls ev pl polls ex' s') as [[rs ex''] s''].
+  cbn [fst] in *. constructor; assumption.
+Qed.
+
+(* THE THEOREM for PUT / REMOVE: every text, every poll sequence (the finished plan polled
+   again and again, Next and Batch mixed), every storage state and fault index: BuildPlan is
+   never TPanic / TFuel, and no poll of an accepted plan returns an error of the EPanic / EFuel
+   class *)
+Theorem write_text_never_panics q polls s :
+  match fst (PipelineW.write_text fo re q polls s) with
+  | TPanic | TFuel => False
+  | TOk outs => Forall pres_ok outs
+  | _ => True
+  end.
+Proof.
+  unfold PipelineW.write_text. pose proof (write_plan_text_clean fo re re_safe q) as Hc.
+  destruct (PipelineW.write_plan_text fo re q) as [pl|p|e| | |] eqn:Ep; cbn [fst PipelineW.tcast tclean'] in *;
+    try exact I; try contradiction.
+  assert (Hs : PipelineW.plan_stat fo re pl = PipelineW.EsRuns).
+  { unfold PipelineW.write_plan_text in Ep. destruct (PipelineW.front fo PipelineW.is_write_kind q) as [sc| | | | |];
+      cbn [tbind] in Ep; try discriminate.
+    destruct (PipelineW.wplan_of (snd sc)) as [pl'|]; [|discriminate].
+    destruct (PipelineW.plan_stat fo re pl') eqn:Es; try discriminate. injection Ep as <-. exact Es. }
+  unfold Write.wexec. pose proof (run_polls_ok pl Hs polls (Write.wbuild) s) as H.
+  destruct (Write.run_polls ev pl polls Write.wbuild s) as [[rs ex] s']. exact H.
+Qed.
+
+End WritePolls.
+
+(* ---- DELETE from the text *)
+Section DeleteText.
+Variable fo : fops.
+Variable re : bytes -> bytes -> Value.res bool.
+Variable fmt_v : F fo -> string.
+
+(* NewOptimizer(q).BuildPlan(store) for a DELETE text: a plan, a positional rejection or the
+   model boundary *)
+Theorem delete_plan_text_clean q : tclean' (PipelineW.delete_plan_text fo re fmt_v q).
+Proof.
+  unfold PipelineW.delete_plan_text. pose proof (front_clean fo PipelineW.is_delete_kind q) as Hf.
+  assert (Hk : forall s c2, PipelineW.front fo PipelineW.is_delete_kind q = TOk (s, c2) ->
+                            PipelineW.is_delete_kind (PipelineW.head_kind (lex q)) = true).
+  { unfold PipelineW.front, PipelineW.parsed_text. cbv zeta. intros s c2.
+    destruct (pc_oom fo q (lex q)); [discriminate|].
+    destruct (PipelineW.is_delete_kind (PipelineW.head_kind (lex q))); [reflexivity | discriminate]. }
+  destruct (PipelineW.front fo PipelineW.is_delete_kind q) as [[s c2]|p|e| | |] eqn:Ef; cbn [tbind tclean'] in *;
+    try exact I; try contradiction.
+  destruct Hf as [Hs Hshape]. specialize (Hk s c2 eq_refl).
+  destruct (PipelineW.head_kind (lex q)); try discriminate Hk; cbn [kind_shape] in Hshape.
+  destruct s; try contradiction. destruct c2; try contradiction.
+  destruct (PipelineW.limit_of _); [|exact I]. destruct (fold_oom _ _ _ _); exact I.
+Qed.
+
+(* THE THEOREM for DELETE: every text, every PlanBatchSize, every storage state: BuildPlan is
+   never TPanic / TFuel; and the run of the plan it returns never ends in the EPanic class (nil
+   iterator, wrong node state), whatever filter, batch size and fuel -- the DeletePlan over a
+   scan by run_stmt_never_panics (Proofs/NoPanicPlanProofs.v), the RemovePlan over listed keys
+   by the poll lemma above with literal keys *)
+Theorem delete_text_never_panics q B s :
+  tclean' (fst (PipelineW.delete_text fo re fmt_v q B s)) /\
+  forall pl flt fuel, PipelineW.delete_plan_text fo re fmt_v q = TOk pl ->
+    match PipelineW.dp_plan pl with
+    | Delete.DScan c =>
+        fst (ScanIO.run ScanIO.exec_req (ScanIO.delete_prog true flt B fuel c) s) <> Storage.Err Storage.EPanic
+    | Delete.DRemove keys => True
+    end.
+Proof.
+  split.
+  - unfold PipelineW.delete_text. pose proof (delete_plan_text_clean q) as Hc.
+    destruct (PipelineW.delete_plan_text fo re fmt_v q) as [pl|p|e| | |]; cbn [fst PipelineW.tcast tclean'] in *;
+      try exact I; try contradiction.
+    destruct (PipelineW.filter_oom _ _ _ _); exact I.
+  - intros pl flt fuel _. destruct (PipelineW.dp_plan pl) as [c|keys]; [|exact I].
+    exact (NoPanicPlanProofs.run_stmt_never_panics_lemma true flt (fun _ => EmptyString) B fuel
+             ScanIO.RowMode (ScanIO.StDelete c) s).
+Qed.
+
+End DeleteText.
